@@ -517,7 +517,8 @@ Section EvalWf.
         match type of H with context [bind_params ?ps 0 args ?acc] =>
           assert (Hacc : flt (length st) acc); [|(destruct (bind_params ps 0 args acc) as [local|] eqn:Eb)] end.
         { apply Forall_app. split.
-          - destruct (lookup fr "inputs") eqn:El; constructor; [|constructor]. cbn [snd]. eapply lookup_vlt; eauto.
+          - destruct (lookup_frame scope "inputs"); [constructor|].  (* F9 repaired *)
+            destruct (lookup fr "inputs") eqn:El; constructor; [|constructor]. cbn [snd]. eapply lookup_vlt; eauto.
           - destruct (lam_name st id); [|constructor]. destruct (lookup_frame scope s); constructor; [|constructor].
             exact Hthis. }
         2:{ symmetry in H; eapply Hsame; try exact H; reflexivity. }
